@@ -2,3 +2,4 @@ import PosterModel.Prim
 import PosterModel.Props
 import PosterModel.Tx
 import PosterModel.Rx
+import PosterModel.Framing
